@@ -23,6 +23,7 @@ EXPLANATION = (
     "period tables are derived from the download step tables, sorting selects the sorting loader and sorts by 'when'. "
     "C19.4: the BOM table is evaluated as constants: no entry is shadowed by an earlier prefix, each BOM decodes to "
     "U+FEFF (or nothing) under its paired codec. OHLCV aggregation arithmetic is not claimed."
+    " C19.2 also: every flush consumes the skip-first-bar flag."
 )
 TRUSTED = ["CPython ast parser", "sa.absint weak-ordering interpreter", "stdlib codecs constants",
            "datetime has microsecond resolution"]
